@@ -2,4 +2,4 @@
    correspondence driver (ExtrOcamlBasic only; numbers stay Coq positive/Z/nat). *)
 From Burrow Require Import Int64 F32 Eval AMap Ring Storage Wire ClusterMod Pipeline.
 Require Import ExtrOcamlBasic.
-Extraction "model.ml" pipe_step pinit mkPconfig mkConfig env_of_tables f32_of_bits f32_bits status_num.
+Extraction "model.ml" pipe_step step pinit mkPconfig mkConfig env_of_tables f32_of_bits f32_bits status_num.
